@@ -8,7 +8,7 @@ inequality, representation invariance, agreement with a reference — those need
 import math
 
 from ..core import RuleResult, Violation
-from ..interval import Interp, INPUT_BOUND, INF
+from ..interval import Interp, Iv, INPUT_BOUND, INF
 
 META = {
     'explanation': 'C09 (range clauses only): every StateSpace::distance body is abstractly interpreted over intervals with a '
@@ -55,4 +55,115 @@ def run(ctx, tier):
             r.violations.append(Violation('C09', 'C09.range', b.path, 'range', '; '.join(why) + ' for finite inputs', loc=b.loc(0)))
     if n < 4:
         r.violations.append(Violation('C09', 'C09.range', 'oxmpl', 'floor', 'only %d primitive/compound distance functions analysed (floor 4)' % n))
-    return [r]
+    return [r, _repr(ctx), _cut(ctx)]
+
+
+def _cut(ctx):
+    """C09.cut - a distance that answers with a literal constant on one side of a threshold must agree there with what the
+    other side computes: a jump of size J at the threshold means two states a, b arbitrarily close to each other with
+    |d(a,c) - d(b,c)| = J > d(a,b), i.e. the triangle inequality fails (and states closer than the threshold become
+    indistinguishable).  Decided by evaluating the computing side in the interval domain with the compared value pinned
+    to the threshold."""
+    TOL = 1e-7
+    r = RuleResult('C09.cut', 'a constant early answer of a distance function agrees with the formula at its threshold (no jump)')
+    for b in sorted(ctx.lib_bodies(), key=lambda x: x.path):
+        if b.impl_trait != SS or b.name != 'distance' or b.kind != 'AssocFn':
+            continue
+        fn = ctx.fn(b)
+        o = 0
+        for S, blk in enumerate(b.blocks):
+            t = blk['term']
+            if blk['cleanup'] or t['k'] != 'switch' or len(t['targets']) != 1:
+                continue
+            d = t['discr'].get('move') or t['discr'].get('copy')
+            cmp_st = None
+            for st in blk['stmts']:
+                if st['k'] == 'assign' and d is not None and st['place'] == {'l': d['l'], 'p': []} and st['rv']['k'] == 'binop' and \
+                        st['rv']['op'] in ('Lt', 'Le', 'Gt', 'Ge'):
+                    cmp_st = st
+            if cmp_st is None:
+                continue
+            a, c = cmp_st['rv']['a'], cmp_st['rv']['b']
+            if 'const' in a:
+                a, c = c, a
+            if 'const' not in c or 'fval' not in c['const'] or 'const' in a:
+                continue
+            try:
+                thr = float(c['const']['fval'])
+            except ValueError:
+                continue
+            xp = a.get('move') or a.get('copy')
+            if xp is None or xp['p']:
+                continue
+            arms = [t['targets'][0][1], t['otherwise']]
+            for ai, arm in enumerate(arms):
+                K = _literal_return(b, arm)
+                if K is None:
+                    continue
+                other = arms[1 - ai]
+                it = Interp(ctx, ctx.core)
+                it.force = {'body': b, 'block': S, 'target': other, 'key': (xp['l'],), 'iv': Iv(thr, thr)}
+                res = it.analyze(b).get(('ret',))
+                ok = res is None or (res.lo - TOL <= K <= res.hi + TOL) or res.nan
+                r.inst('%s: constant answer %g at threshold %g vs formula %s' % (b.path, K, thr, res), ok=ok, site=b.loc(S))
+                if not ok:
+                    r.violations.append(Violation(
+                        'C09', 'C09.cut', b.path, 'jump',
+                        'the distance answers %g on one side of the test against %.12g but the formula gives %s at that value: a jump of '
+                        'about %.3g; states closer than that to each other get distance %g, and the triangle inequality fails across the '
+                        'threshold' % (K, thr, res, min(abs(K - res.lo), abs(K - res.hi)), K), loc=b.loc(S), ordinal=o))
+                    o += 1
+    r.notes.append('no distance function on the pinned tree has a constant early answer: zero instances is the expected count')
+    return r
+
+
+def _literal_return(b, start):
+    """K if the blocks from `start` to the return only assign the literal float K to the return place (no calls)"""
+    cur, K, n = start, None, 0
+    while n < 6:
+        blk = b.blocks[cur]
+        for st in blk['stmts']:
+            if st['k'] == 'assign' and st['place'] == {'l': 0, 'p': []}:
+                c = st['rv']['op'].get('const') if st['rv']['k'] == 'use' else None
+                if c is None or 'fval' not in c:
+                    return None
+                try:
+                    K = float(c['fval'])
+                except ValueError:
+                    return None
+            elif st['k'] == 'assign' and b.local_ty(st['place']['l']) != '()':
+                return None
+        t = blk['term']
+        if t['k'] == 'return':
+            return K
+        if t['k'] != 'goto':
+            return None
+        cur = t['target']
+        n += 1
+    return None
+
+
+def _repr(ctx):
+    """C09.repr - q and -q denote the same rotation: the SO(3) distance is an even function of each argument (sign-symmetry
+    abstract interpretation, oxa/parity.py)"""
+    from ..parity import Parity, E
+    r = RuleResult('C09.repr', 'SO(3) distance gives the same value for q and -q in either argument (sign-symmetry analysis)')
+    m = 0
+    for b in sorted(ctx.lib_bodies(), key=lambda x: x.path):
+        if b.impl_trait != SS or b.name != 'distance' or b.kind != 'AssocFn' or 'so3' not in (b.j.get('impl_adt') or '').lower():
+            continue
+        states = [i for i in range(1, b.arg_count + 1) if b.local_ty(i).endswith('SO3State')]
+        for o, i in enumerate(states):
+            m += 1
+            res = Parity(ctx, ctx.core).analyze(b, {i}).get(('ret',))
+            ok = res == E
+            r.inst('%s is %s in `%s`' % (b.path, {'E': 'even', 'O': 'odd'}.get(res, 'not shown even'), b.local_name(i)), ok=ok, site=b.loc(0))
+            if not ok:
+                r.violations.append(Violation(
+                    'C09', 'C09.repr', b.path, 'sign:' + str(b.local_name(i)),
+                    'the distance is not shown to be unchanged when `%s` is replaced by its negation (the same rotation): the value '
+                    'depends on the sign of the quaternion%s' % (b.local_name(i), '' if res else ' (no value reaches the return place)'),
+                    loc=b.loc(0), ordinal=o))
+    if m < 2:
+        r.violations.append(Violation('C09', 'C09.repr', 'oxmpl', 'floor', 'only %d (SO(3) distance, argument) pairs analysed (floor 2)' % m))
+    return r
